@@ -78,7 +78,11 @@ class BridgeReplay:
                             break
                         await asyncio.sleep(0)
             elif a == "Stop":
-                await bridge.stop()
+                try:
+                    await bridge.stop()
+                except Exception as x:  # noqa: BLE001 - stop() is safe in every state: an exception is a mismatch, not a harness failure
+                    self.mismatch.append({"step": n, "action": a, "what": "running-flag", "expected": "stop() returns", "observed": "raised " + type(x).__name__})
+                    break
                 self.queues = {}
             elif a == "Cycle":
                 await vnet.settle(2)
@@ -130,6 +134,8 @@ class BridgeReplay:
             if limbo:
                 checks = [c for c in checks if c[0] != "ports-being-released"]
             for what, want, got in checks:
+                if what == "ports-being-released" and set(got) <= set(want):
+                    continue          # released earlier than promised (a stop() that waits for its sockets) is fine
                 if want != got:
                     self.mismatch.append({"step": n, "action": a, "what": what, "expected": want, "observed": got})
             if self.mismatch:
